@@ -83,7 +83,14 @@ class Set(Container):
 
     def __str__(self) -> str:
         try:
-            return "{%s}" % ", ".join(map(str, self._value))  # This is recursive.
+            # The iteration order of a frozenset depends on the hash seed and on how the set was built (e.g., it may
+            # change after unpickling), so the elements are ordered to keep the representation deterministic:
+            # primitives by their native value, anything else by its own representation.
+            try:
+                ordered = sorted(self._value, key=lambda x: x.native_value)
+            except (AttributeError, TypeError):
+                ordered = sorted(self._value, key=str)
+            return "{%s}" % ", ".join(map(str, ordered))  # This is recursive.
         except (AttributeError, TypeError):  # pragma: no cover
             return "Set(UNINITIALIZED)"
 
